@@ -2,6 +2,7 @@ import GV.Basic.Bits
 import GV.Model.Utf8
 import GV.Spec.Utf8
 import GV.Proofs.StrLit
+import GV.Proofs.Bytes
 
 namespace GV.Props.C14
 open GV.Utf8 GV.Bits
@@ -333,6 +334,78 @@ theorem decode_encode (r : Int) (hs : isScalar r = true) (rest : Str) :
 /-- non-scalars (negative, surrogates, beyond U+10FFFF) encode as U+FFFD = EF BF BD. -/
 theorem encode_nonscalar (r : Int) (hs : isScalar r = false) : encodeRune r = [0xEF, 0xBF, 0xBD] := by
   rw [encode_spec]; unfold GV.Spec.Utf8.encode; simp only [hs, Bool.false_eq_true, if_false]; decide
+
+/-! ### conversions -/
+
+theorem stringToRunesAux_spec (s : Str) (fuel i : Nat) :
+    stringToRunesAux s fuel i = (runesAux s fuel i).map (·.2) := by
+  induction fuel generalizing i with
+  | zero => rfl
+  | succ n ih =>
+    simp only [stringToRunesAux, runesAux, decode_spec]
+    split
+    · simp only [List.map_cons, ih]
+    · rfl
+
+/-- **runes_spec** — `[]rune(s)` (`$stringToRunes`) is exactly the rune sequence of the range specification. -/
+theorem runes_spec (s : Str) : stringToRunes s = (rangeSpec s).map (·.2) := stringToRunesAux_spec s _ _
+
+/-- **runesToString_spec** — `string([]rune)` (`$runesToString`) concatenates the UTF-8 encodings, U+FFFD for non-scalars. -/
+theorem runesToString_spec (rs : List Int) : runesToString rs = (rs.map GV.Spec.Utf8.encode).flatten := by
+  unfold runesToString
+  congr 1
+  exact List.map_congr_left (fun r _ => encode_spec r)
+
+/-- **index_spec** — string indexing as emitted after the repair (fix: 365079a): panics (none) exactly when the index is
+    outside `[0, len)`, otherwise yields the byte. -/
+theorem index_spec (s : Str) (i : Int) :
+    indexString s i = (if 0 ≤ i ∧ i < s.length then s[i.toNat]? else none) := by
+  unfold indexString charCodeAt
+  by_cases h : 0 ≤ i ∧ i < (s.length : Int)
+  · have : (decide (i < 0) || decide (i ≥ (s.length : Int))) = false := by
+      simp only [Bool.or_eq_false_iff, decide_eq_false_iff_not]; omega
+    simp only [this, Bool.false_eq_true, if_false, h, and_self, if_true]
+  · have : (decide (i < 0) || decide (i ≥ (s.length : Int))) = true := by
+      simp only [Bool.or_eq_true, decide_eq_true_eq]; omega
+    simp only [this, if_true, h, if_false]
+
+theorem index_in_range (s : Str) (i : Int) (h0 : 0 ≤ i) (h1 : i < s.length) : (indexString s i).isSome = true := by
+  rw [index_spec]; simp only [h0, h1, and_self, if_true]
+  have : i.toNat < s.length := by omega
+  simp [List.getElem?_eq_getElem this]
+
+/-- **substring_spec** — `$substring` panics exactly when Go's slice expression on a string does
+    (`low < 0 ∨ high < low ∨ high > len`), otherwise yields the bytes `[low, high)`. -/
+theorem substring_spec (s : Str) (lo hi : Int) :
+    substring s lo hi = (if 0 ≤ lo ∧ lo ≤ hi ∧ hi ≤ s.length then some ((s.drop lo.toNat).take (hi.toNat - lo.toNat)) else none) := by
+  unfold substring
+  by_cases h : 0 ≤ lo ∧ lo ≤ hi ∧ hi ≤ (s.length : Int)
+  · have : (decide (lo < 0) || decide (hi < lo) || decide (hi > (s.length : Int))) = false := by
+      simp only [Bool.or_eq_false_iff, decide_eq_false_iff_not]; omega
+    simp only [this, Bool.false_eq_true, if_false, h, and_self, if_true]
+  · have : (decide (lo < 0) || decide (hi < lo) || decide (hi > (s.length : Int))) = true := by
+      simp only [Bool.or_eq_true, decide_eq_true_eq]; omega
+    simp only [this, if_true, h, if_false]
+
+/-- **bytesToString_spec** — `string(b)` for a byte slice (`$bytesToString`, which converts in chunks to stay below the
+    engine's argument limit): for every backing array, offset, length and every positive chunk size the result is exactly
+    the bytes of the slice window — chunking is invisible. (Instance: the code's chunk size 10000.) -/
+theorem bytesToString_chunk_spec (c : Nat) (hc : 0 < c) (a : List Nat) (off len : Nat) :
+    bytesToStringChunk c a off len = (a.drop off).take len := by
+  unfold bytesToStringChunk
+  by_cases h0 : len = 0
+  · subst h0; simp
+  · rw [if_neg h0, aux_spec a off len c hc (len + 1) 0 (by omega) (by omega), subarray_eq]
+    simp
+
+theorem bytesToString_spec (a : List Nat) (off len : Nat) : bytesToString a off len = (a.drop off).take len :=
+  bytesToString_chunk_spec 10000 (by decide) a off len
+
+/-- `[]byte(s)` (`$stringToBytes`) is the identity on byte strings -/
+theorem stringToBytes_spec (s : Str) (hs : Bytes s) : stringToBytes s = s := by
+  unfold stringToBytes
+  conv => rhs; rw [← List.map_id s]
+  exact List.map_congr_left (fun b hb => by simp only [id]; have := hs b hb; omega)
 
 /-! ### string literals survive compilation -/
 
